@@ -599,232 +599,371 @@ def _branch_of(node, fi, pred):
     return None, None
 
 
+def _truthy_update(name, v):
+    """Is env value v of local `name` a definite 'something changed' mark: True, or the old value plus a positive constant?"""
+    if v == ('bool', True):
+        return True
+    if v[0] == 'add' and {v[1], v[2]} & {('param', name)}:
+        other = v[2] if v[1] == ('param', name) else v[1]
+        return other[0] == 'num' and other[1] > 0
+    if v[0] == 'num' and v[1] > 0:
+        return True
+    return False
+
+
+def _entry_body(r, idx, fi, stmts, X, kind, credits, where):
+    """Check the per-entry work (statements `stmts` acting on entry X): exactly the entries with grade > 0 are scaled.
+    Returns the set of local names that record 'an entry changed'."""
+    pX = ('param', X)
+    G = ('index', pX, ('str', 'grade_decimal'))
+    okloc = ('index', pX, ('str', 'ok'))
+    construct = 'apply_attempt_based_credit [%s result]' % kind
+    try:
+        paths = ai.sym_exec(idx, fi, stmts=stmts)
+    except Unsupported as e:
+        r.undecided(construct + ': body', str(e), where)
+        return set()
+    flags = None
+    seen_pos = seen_nonpos = False
+    for p in paths:
+        if p.kind != 'fall':
+            r.undecided(construct + ': body', 'a path of the per-entry work %s' % p.kind, where)
+            continue
+        gconds = [c for g in p.conds for c in ai.t_conjuncts(g) if ai.mentions(c, G)]
+        pos = ('cmp', '<', ai.num(0), G) in gconds
+        nonpos = ('cmp', '<=', G, ai.num(0)) in gconds
+        incl_zero = [c for c in gconds if c in (('cmp', '<=', ai.num(0), G), ('cmp', '<', G, ai.num(0)))]
+        stored = p.store.get(G)
+        touched = any(k[0] == 'index' and k[1] == pX for k in p.store)
+        if incl_zero:
+            if incl_zero[0][1] == '<=' and touched:
+                r.violation(construct + ': guard', 'entries are scaled under `%s`: an entry with grade 0 counts as "changed" (the note is '
+                            'shown although no grade was reduced)' % ai.show(incl_zero[0]), where, expected='grade_decimal > 0',
+                            found=ai.show(incl_zero[0]))
+            elif incl_zero[0][1] == '<' and not touched and not nonpos:
+                pass        # the complement of a `>= 0` guard: reported on the other path
+            continue
+        if not gconds:
+            if touched:
+                r.violation(construct + ': guard', 'the entry is modified without testing grade_decimal > 0: zero grades count as changed', where,
+                            expected='if grade_decimal > 0')
+            continue
+        if not (pos or nonpos):
+            r.undecided(construct + ': guard', 'grade condition `%s` not recognised' % ai.show(gconds[0]), where)
+            continue
+        if nonpos:
+            seen_nonpos = True
+            if touched:
+                r.violation(construct + ': zero grades', 'entries whose grade is not positive are modified as well', where)
+            marks = {k for k, v in p.env.items() if _truthy_update(k, v)}
+            if marks and flags is not None and marks & flags:
+                r.violation(construct + ': flag', 'an entry whose grade is not positive is recorded as changed (%s)' % ', '.join(sorted(marks & flags)), where)
+            continue
+        seen_pos = True
+        r.ok(construct + ': guard', 'grade_decimal > 0', where)
+        prod_ok = stored is not None and stored[0] == 'mul' and (
+            (stored[1] == G and stored[2][0] == 'param' and stored[2][1] in credits) or
+            (stored[2] == G and stored[1][0] == 'param' and stored[1][1] in credits))
+        if stored is None:
+            r.violation(construct + ': product', 'the new grade is never stored back into grade_decimal', where,
+                        expected="%s['grade_decimal'] * credit" % X)
+        elif prod_ok:
+            r.ok(construct + ': product', 'grade_decimal := grade_decimal * credit', where)
+        elif any(s[0] == 'param' and s[1] in credits for s in ai.subterms(stored)) and any(s == G for s in ai.subterms(stored)):
+            r.violation(construct + ': product', 'the new grade is `%s`, not grade * credit' % ai.show(stored), where,
+                        expected="%s['grade_decimal'] * credit" % X, found=ai.show(stored))
+        elif stored[0] == 'param' and stored[1] in credits:
+            r.violation(construct + ': product', 'the stored grade `%s` does not combine the old grade with the credit' % ai.show(stored),
+                        where, expected="%s['grade_decimal'] * credit" % X, found=ai.show(stored))
+        else:
+            r.undecided(construct + ': product', 'stored grade `%s` not recognised' % ai.show(stored), where)
+        okv = p.store.get(okloc)
+        if okv is None:
+            r.violation(construct + ': ok', 'ok is not recomputed after scaling: a full-credit answer keeps ok=True with a grade below 1',
+                        where, expected="%s['ok'] = self.grade_decimal_to_ok(grade)" % X)
+        elif okv[0] in ('meth', 'call') and (okv[2] if okv[0] == 'meth' else okv[1]).split('.')[-1] == 'grade_decimal_to_ok':
+            args = okv[3] if okv[0] == 'meth' else okv[2]
+            if len(args) == 1 and stored is not None and args[0] == stored:
+                r.ok(construct + ': ok', 'ok := grade_decimal_to_ok(new grade)', where)
+            elif len(args) == 1 and args[0] == G:
+                r.violation(construct + ': ok', 'ok is recomputed from the grade *before* scaling', where,
+                            expected='grade_decimal_to_ok(new grade)', found=ai.show(okv))
+            else:
+                r.undecided(construct + ': ok', 'ok is recomputed from `%s`' % ai.show(args[0] if args else okv), where)
+        else:
+            r.undecided(construct + ': ok', 'ok is set to `%s`' % ai.show(okv), where)
+        marks = {k for k, v in p.env.items() if _truthy_update(k, v)}
+        flags = marks if flags is None else flags & marks
+        if marks:
+            r.ok(construct + ': flag', 'a scaled entry is recorded (%s)' % ', '.join(sorted(marks)), where)
+        else:
+            r.violation(construct + ': flag', 'a reduced grade is not recorded (no flag/counter is updated), so the note about the maximum '
+                        'credit is not shown', where)
+    if not seen_pos:
+        r.undecided(construct + ': guard', 'no path for entries with a positive grade was recognised', where)
+    return flags or set()
+
+
 def d2_scale(ctx, idx, fi, R, N):
     r = ctx.rule('D2.SCALE', 'exactly the entries with grade > 0 are multiplied by the credit and get ok recomputed '
-                 '(list and single results)', floor=13)
+                 '(list and single results)', floor=12)
     pR = ('param', R)
     tb = ai.TermBuilder(idx, fi)
+    fi._c17_flags = set()
     with r:
         credits = _credit_names(fi)
         if not credits:
             raise AnalysisError('no local holds the value of the schedule call')
-        sites = []
-        for n in walk_own(fi.node):
-            if isinstance(n, ast.If):
-                t = nf.canon(n.test)
-                if isinstance(t, ast.Compare) and len(t.ops) == 1:
-                    for side, oth in ((t.left, t.comparators[0]), (t.comparators[0], t.left)):
-                        if lib.subscript_key(side) == 'grade_decimal' and isinstance(side.value, ast.Name) \
-                                and isinstance(oth, ast.Constant) and isinstance(oth.value, (int, float)):
-                            sites.append((n, side.value.id))
-        if not sites:
-            r.violation('apply_attempt_based_credit', 'no `grade_decimal > 0` site is left: grades are not scaled by the credit', fi.loc)
-            return
-        in_list = lambda test: tb.build(test, {}) == ('cmp', 'in', ('str', 'input_list'), pR)    # noqa: E731
+        in_list_t = ('cmp', 'in', ('str', 'input_list'), pR)
+        in_list = lambda test: tb.build(lib.inline_locals(test, fi.node), {}) == in_list_t    # noqa: E731
+        from ..index import ancestors
+        served = set()
         flags = set()
-        kinds = {}
-        for site, X in sites:
-            where = lib.loc(fi, site)
-            pX = ('param', X)
-            old = ('index', pX, ('str', 'grade_decimal'))
-            # --- which results does the site serve?
-            from ..index import ancestors
-            loop = next((a for a in ancestors(site) if isinstance(a, (ast.For, ast.While))), None)
-            if loop is not None and isinstance(loop, ast.For) and isinstance(loop.target, ast.Name) and loop.target.id == X:
-                kind = 'list'
-                it = tb.build(loop.iter, {})
-                r.check(it == ('index', pR, ('str', 'input_list')), 'scaling loop: iterable', "result['input_list']",
-                        'the loop iterates over `%s` instead of result[\'input_list\']' % ai.show(it), lib.loc(fi, loop))
-                exits = lib.loop_has_early_exit(loop)
-                r.check(not exits, 'scaling loop: exhaustive', 'no break/continue/return in the loop',
-                        'the loop over the inputs can stop early (%s): later inputs keep their unscaled grade'
-                        % (type(exits[0]).__name__ if exits else ''), lib.loc(fi, exits[0] if exits else loop))
+        site_nodes = set()
+        n_sites = 0
+        # --- loops over entries
+        for loop in [n for n in walk_own(fi.node) if isinstance(n, (ast.For, ast.While))]:
+            if not any(lib.subscript_key(x) == 'grade_decimal' for x in ast.walk(loop)):
+                continue
+            where = lib.loc(fi, loop)
+            if not (isinstance(loop, ast.For) and isinstance(loop.target, ast.Name)):
+                r.undecided('scaling loop', 'loop form not recognised', where)
+                continue
+            X = loop.target.id
+            n_sites += 1
+            it = tb.build(lib.inline_locals(loop.iter, fi.node), {})
+            lst = ('index', pR, ('str', 'input_list'))
+            single = ('list', (pR,))
+            if it == lst:
+                kinds = ['list']
                 br, _ = _branch_of(loop, fi, in_list)
-            elif X == R and loop is None:
-                kind = 'single'
-                br, _ = _branch_of(site, fi, in_list)
+                if br == 'body':
+                    r.ok('scaling loop: iterable', "result['input_list'] under 'input_list' in result", where)
+                elif br == 'orelse':
+                    r.violation('scaling loop: iterable', "the loop over result['input_list'] runs when 'input_list' is NOT in result", where)
+                    kinds = []
+                else:
+                    r.undecided('scaling loop: iterable', "not guarded by 'input_list' in result", where)
+            elif it in (('ifexp', in_list_t, lst, single), ('ifexp', ai.t_not(in_list_t), single, lst)):
+                kinds = ['list', 'single']
+                r.ok('scaling loop: iterable', "result['input_list'] if 'input_list' in result else [result]", where)
+            elif it[0] == 'index' and it[1] == lst:
+                r.violation('scaling loop: iterable', 'the loop iterates over `%s`, a part of result[\'input_list\']: the other inputs keep '
+                            'their unscaled grade' % ai.show(it), where, expected="result['input_list']", found=ai.show(it))
+                kinds = []
             else:
-                r.undecided('scaling site on %s' % X, 'not the loop variable of a loop over input_list nor the result itself', where)
+                r.undecided('scaling loop: iterable', 'iterable `%s` not recognised' % ai.show(it), where)
+                kinds = []
+            exits = lib.loop_has_early_exit(loop)
+            if exits:
+                r.violation('scaling loop: exhaustive', 'the loop over the inputs can stop early (%s): later inputs keep their unscaled grade'
+                            % type(exits[0]).__name__, lib.loc(fi, exits[0]))
                 continue
-            kinds[kind] = kinds.get(kind, 0) + 1
-            construct = 'apply_attempt_based_credit [%s result]' % kind
-            want = 'body' if kind == 'list' else 'orelse'
-            if br != want:
-                r.violation(construct + ': branch', "the %s-result scaling runs when 'input_list' %s result" %
-                            (kind, 'is in' if br == 'body' else 'is not in' if br == 'orelse' else 'may or may not be in'), where)
-            else:
-                r.ok(construct + ': branch', "'input_list' in result selects the list form", where)
-            # --- guard
-            res = nf.classify("0 < %s['grade_decimal']" % X, site.test)
-            if res == nf.MATCH:
-                r.ok(construct + ': guard', 'grade_decimal > 0', where)
-            elif isinstance(res, tuple):
-                r.violation(construct + ': guard', '%s: entries with grade 0 count as "changed" (the note is shown although no '
-                            'grade was reduced) or positive grades are skipped' % res[1], where, expected='grade_decimal > 0',
-                            found=short(site.test))
-            else:
-                r.undecided(construct + ': guard', 'condition `%s` not recognised' % short(site.test), where)
-            # --- body
-            try:
-                bpaths = ai.sym_exec(idx, fi, stmts=site.body)
-                opaths = ai.sym_exec(idx, fi, stmts=site.orelse) if site.orelse else []
-            except Unsupported as e:
-                r.undecided(construct + ': body', str(e), where)
+            r.ok('scaling loop: exhaustive', 'no break/continue/return in the loop', where)
+            served |= set(kinds)
+            site_nodes |= {id(x) for b in loop.body for x in ast.walk(b)}
+            flags |= _entry_body(r, idx, fi, loop.body, X, '/'.join(kinds) or 'list', credits, where)
+        # --- the result itself (single input), outside any loop
+        for site in [n for n in walk_own(fi.node) if isinstance(n, ast.If)]:
+            if any(isinstance(a, (ast.For, ast.While)) for a in ancestors(site)):
                 continue
-            for p in opaths:
-                if any(k[0] == 'index' and k[1] == pX for k in p.store):
-                    r.violation(construct + ': zero grades', 'entries whose grade is not positive are modified as well', where)
-            for p in bpaths:
-                if p.kind != 'fall':
-                    r.violation(construct + ': body', 'the scaling branch %s' % ('returns early' if p.kind == 'ret' else 'raises'),
-                                lib.loc(fi, p.stmt))
-                    continue
-                G = p.store.get(old)
-                prod_ok = G is not None and G[0] == 'mul' and (
-                    (G[1] == old and G[2][0] == 'param' and G[2][1] in credits) or
-                    (G[2] == old and G[1][0] == 'param' and G[1][1] in credits))
-                if G is None:
-                    r.violation(construct + ': product', 'the new grade is never stored back into grade_decimal', where,
-                                expected="%s['grade_decimal'] * credit" % X)
-                elif prod_ok:
-                    r.ok(construct + ': product', 'grade_decimal := grade_decimal * credit', where)
-                elif any(s[0] == 'param' and s[1] in credits for s in ai.subterms(G)) and any(s == old for s in ai.subterms(G)):
-                    r.violation(construct + ': product', 'the new grade is `%s`, not grade * credit' % ai.show(G), where,
-                                expected="%s['grade_decimal'] * credit" % X, found=ai.show(G))
-                else:
-                    r.violation(construct + ': product', 'the stored grade `%s` does not combine the old grade with the credit'
-                                % ai.show(G), where, expected="%s['grade_decimal'] * credit" % X, found=ai.show(G))
-                okv = p.store.get(('index', pX, ('str', 'ok')))
-                if okv is None:
-                    r.violation(construct + ': ok', 'ok is not recomputed after scaling: a full-credit answer keeps ok=True '
-                                'with a grade below 1', where, expected="%s['ok'] = self.grade_decimal_to_ok(grade)" % X)
-                elif okv[0] in ('meth', 'call') and (okv[2] if okv[0] == 'meth' else okv[1]).split('.')[-1] == 'grade_decimal_to_ok':
-                    args = okv[3] if okv[0] == 'meth' else okv[2]
-                    if len(args) == 1 and G is not None and args[0] == G:
-                        r.ok(construct + ': ok', 'ok := grade_decimal_to_ok(new grade)', where)
-                    elif len(args) == 1 and args[0] == old:
-                        r.violation(construct + ': ok', 'ok is recomputed from the grade *before* scaling', where,
-                                    expected='grade_decimal_to_ok(new grade)', found=ai.show(okv))
-                    else:
-                        r.violation(construct + ': ok', 'ok is recomputed from `%s`, which is not the stored grade' %
-                                    ai.show(args[0] if args else okv), where, expected='grade_decimal_to_ok(new grade)', found=ai.show(okv))
-                else:
-                    r.violation(construct + ': ok', 'ok is set to `%s` instead of grade_decimal_to_ok(new grade)' % ai.show(okv), where)
-                trues = [k for k, v in p.env.items() if v == ('bool', True)]
-                if len(trues) == 1:
-                    flags.add(trues[0])
-                    r.ok(construct + ': flag', '%s := True' % trues[0], where)
-                else:
-                    r.violation(construct + ': flag', 'a reduced grade is not recorded (no flag is set to True), so the note about the '
-                                'maximum credit is not shown', where)
+            t = nf.canon(site.test)
+            sub = [x for x in ast.walk(t) if lib.subscript_key(x) == 'grade_decimal' and isinstance(x.value, ast.Name) and x.value.id == R]
+            if not sub:
+                continue
+            n_sites += 1
+            where = lib.loc(fi, site)
+            br, _ = _branch_of(site, fi, in_list)
+            if br == 'orelse':
+                r.ok('apply_attempt_based_credit [single result]: branch', "'input_list' not in result", where)
+                served.add('single')
+            elif br == 'body':
+                r.violation('apply_attempt_based_credit [single result]: branch', "the single-result scaling runs when 'input_list' is in result", where)
+            else:
+                r.undecided('apply_attempt_based_credit [single result]: branch', "not selected by 'input_list' in result", where)
+            site_nodes |= {id(x) for x in ast.walk(site)}
+            flags |= _entry_body(r, idx, fi, [site], R, 'single', credits, where)
+        if n_sites == 0:
+            if idx.unreviewed:
+                r.undecided('apply_attempt_based_credit', 'no scaling of grade_decimal found here; unreviewed helpers remain: %s' % list(idx.unreviewed), fi.loc)
+            else:
+                r.violation('apply_attempt_based_credit', 'nothing in the function reads or scales grade_decimal: grades are not multiplied '
+                            'by the credit', fi.loc)
+            return
         for kind in ('list', 'single'):
-            if not kinds.get(kind):
-                r.violation('apply_attempt_based_credit [%s result]' % kind, 'no scaling site serves %s results: their grades keep '
-                            'full value' % kind, fi.loc)
-        # the flag starts False, outside the sites, and is set nowhere else
+            if kind not in served:
+                r.undecided('apply_attempt_based_credit [%s result]' % kind, 'no recognised scaling site serves %s results' % kind, fi.loc)
+        # --- the flag starts falsy, outside the sites
+        flags = {f for f in flags if not f.startswith('_inl')} or flags
         fi._c17_flags = flags
-        site_nodes = {id(x) for s, _ in sites for b in s.body for x in ast.walk(b)}
+        fi._c17_site_nodes = site_nodes
         for flag in sorted(flags):
-            inits = [n for n in walk_own(fi.node) if isinstance(n, ast.Assign) and any(isinstance(t, ast.Name) and t.id == flag for t in n.targets)
+            inits = [n for n in walk_own(fi.node) if isinstance(n, ast.Assign) and any(isinstance(t_, ast.Name) and t_.id == flag for t_ in n.targets)
                      and id(n) not in site_nodes]
-            bad = [n for n in inits if nf.const_value(n.value, None) is not False]
             if not inits:
-                r.violation('apply_attempt_based_credit: %s' % flag, 'the flag is never initialised to False', fi.loc)
-            elif bad:
-                r.violation('apply_attempt_based_credit: %s' % flag, 'the flag is set to `%s` outside the scaling branches: the note '
+                continue
+            bad = [n for n in inits if nf.const_value(n.value, 'x') not in (False, 0)]
+            if bad:
+                r.violation('apply_attempt_based_credit: %s' % flag, 'the flag starts as `%s` outside the scaling branches: the note '
                             'appears although no grade was reduced' % short(bad[0].value), lib.loc(fi, bad[0]), expected='False')
             else:
                 cfg = cfg_of(fi.node)
                 doms = [x for n in inits for x in cfg.nodes_of(n)]
-                tgts = [x for s, _ in sites for x in cfg.nodes_of(s)]
-                r.check(cfg.dominates(doms, tgts), 'apply_attempt_based_credit: %s' % flag, 'initialised to False before the scaling',
-                        'the initialisation to False does not precede the scaling on every path', lib.loc(fi, inits[0]))
+                tgts = [x for n in walk_own(fi.node) if id(n) in site_nodes and isinstance(n, ast.stmt) for x in cfg.nodes_of(n)]
+                r.check(cfg.dominates(doms, tgts), 'apply_attempt_based_credit: %s' % flag, 'initialised to %s before the scaling' % short(inits[0].value),
+                        'the initialisation does not precede the scaling on every path', lib.loc(fi, inits[0]))
+
+
+def _note_value(v):
+    """(previous-text term, format call term) if v == prev + '<template>'.format(...), else None."""
+    if v[0] == 'add' and v[2][0] == 'meth' and v[2][2] == 'format' and v[2][1][0] == 'str':
+        return v[1], v[2]
+    return None
 
 
 def d2_note(ctx, idx, fi, R, N):
     r = ctx.rule('D2.NOTE', "the note 'Maximum credit for attempt #n is p%.' is appended iff the flag is on and a grade changed",
-                 floor=9)
+                 floor=5)
     pR, pN = ('param', R), ('param', N)
     with r:
         credits = _credit_names(fi)
-        flags = getattr(fi, '_c17_flags', set())
-        conds = [n for n in walk_own(fi.node) if isinstance(n, ast.If) and lib.mentions_config(n.test, 'attempt_based_credit_msg')]
-        has_fmt = any(isinstance(c, ast.Constant) and c.value == NOTE_FORMAT for c in ast.walk(fi.node))
-        if not conds:
+        flags = sorted(getattr(fi, '_c17_flags', set()))
+        if len(flags) != 1:
+            raise AnalysisError('cannot identify the local that records a changed grade (candidates: %s)' % flags)
+        flag = flags[0]
+        try:
+            paths = ai.sym_exec(idx, fi, loops='opaque')
+        except Unsupported as e:
+            raise AnalysisError(str(e))
+        in_list_t = ('cmp', 'in', ('str', 'input_list'), pR)
+        msg_t = ('cfg', 'attempt_based_credit_msg')
+        live = [p for p in paths if p.kind in ('fall', 'ret') and not any(
+            g == ('cmp', 'is', pN, ('none',)) or (g[0] == 'cmp' and g[1] == '==' and ai.num(1) in (g[2], g[3]) and
+                                                  (_is_credit(g[2]) or _is_credit(g[3]))) for g in p.conds)]
+        if not live:
+            raise AnalysisError('no path reaches the end of apply_attempt_based_credit')
+        if not any(ai.mentions(g, msg_t) for p in live for g in p.conds):
+            has_fmt = any(isinstance(c, ast.Constant) and c.value == NOTE_FORMAT for c in ast.walk(fi.node))
+            if idx.unreviewed:
+                raise AnalysisError("config['attempt_based_credit_msg'] is not consulted here; unreviewed helpers remain")
             r.violation('apply_attempt_based_credit: note condition', "config['attempt_based_credit_msg'] is no longer consulted: the "
                         'note is %s' % ('added regardless of the author\'s choice' if has_fmt else 'never added'), fi.loc,
                         expected="if self.config['attempt_based_credit_msg'] and changed_result")
             return
-        for site in conds:
-            where = lib.loc(fi, site)
-            binds = {}
-            res = nf.classify("self.config['attempt_based_credit_msg'] and _C", site.test, binds)
-            construct = 'apply_attempt_based_credit: note condition'
-            if res == nf.MATCH:
-                c = binds.get('_C')
-                if isinstance(c, ast.Name) and c.id in flags:
-                    r.ok(construct, 'message flag and %s' % c.id, where)
-                else:
-                    r.violation(construct, 'the second conjunct `%s` is not the flag set by the scaling branches (%s)'
-                                % (short(c), ', '.join(sorted(flags)) or 'none'), where)
-            elif isinstance(res, tuple):
-                r.violation(construct, '%s: the note must be added exactly when the message option is on AND some grade was reduced'
-                            % res[1], where, expected="self.config['attempt_based_credit_msg'] and changed_result", found=short(site.test))
+
+        def written(p, asg):
+            """{key: value term} of the result messages the path extends with the note."""
+            out = {}
+            for k, v in p.store.items():
+                if k[0] == 'index' and k[1] == pR:
+                    nv = _note_value(v)
+                    if nv is None and not any(s[0] == 'str' and 'Maximum credit' in s[1] for s in ai.subterms(v)):
+                        continue
+                    key = ai.enum_eval(k[2], asg)
+                    out[key if key is not ai.UNK else ai.show(k[2])] = v
+            return out
+
+        table = {}
+        problems = []
+        text_checked = set()
+        for p in live:
+            ft = p.env.get(flag, ('param', flag))
+            if ft[0] == 'bool':
+                fvals = [ft[1]]
+                fkey = None
+            elif ft[0] == 'opaque' or ft == ('param', flag):
+                init = [n for n in walk_own(fi.node) if isinstance(n, ast.Assign) and any(isinstance(t_, ast.Name) and t_.id == flag for t_ in n.targets)
+                        and isinstance(n.value, ast.Constant)]
+                counter = bool(init) and not isinstance(init[0].value.value, bool)
+                fvals = [0, 1, 2] if counter else [False, True]
+                fkey = ft
             else:
-                r.undecided(construct, 'condition `%s` not recognised' % short(site.test), where)
-            try:
-                paths = ai.sym_exec(idx, fi, stmts=site.body)
-            except Unsupported as e:
-                r.undecided('apply_attempt_based_credit: note body', str(e), where)
+                try:
+                    fvals = [ai.concrete(ft, {})]
+                    fkey = None
+                except (Unsupported, ZeroDivisionError):
+                    raise AnalysisError('value `%s` of %s at the note is not understood' % (ai.show(ft), flag))
+            for m in (False, True):
+                for fv in fvals:
+                    for lst in (False, True):
+                        asg = {'attempt_based_credit_msg': m, in_list_t: lst, ai.t_not(in_list_t): not lst}
+                        if fkey is not None:
+                            asg[fkey] = fv
+                        vals = [ai.enum_eval(g, asg) for g in p.conds]
+                        if any(v is not ai.UNK and not v for v in vals):
+                            continue
+                        w = written(p, asg)
+                        want_note = bool(m and fv)
+                        want_key = 'overall_message' if lst else 'msg'
+                        case = (m, bool(fv), lst)
+                        table.setdefault(case, []).append(bool(w))
+                        where = lib.loc(fi, p.stmt or fi.node)
+                        if w and not want_note:
+                            problems.append(('spurious', case, where))
+                        elif not w and want_note:
+                            problems.append(('missing', case, where))
+                        elif w and set(w) != {want_key}:
+                            problems.append(('key', case, where, sorted(map(str, w)), want_key))
+                        elif w:
+                            sig = ai.show(w[want_key])
+                            if sig not in text_checked:
+                                text_checked.add(sig)
+                                _note_text(r, w[want_key], ('index', pR, ('str', want_key)), pN, credits, want_key, where, p)
+        shown = set()
+        for pr in problems:
+            kind, case = pr[0], pr[1]
+            if (kind, case[:2]) in shown:
                 continue
-            seen = set()
-            for p in paths:
-                if p.kind != 'fall':
-                    r.violation('apply_attempt_based_credit: note body', 'a path %s inside the note branch' % p.kind, where)
-                    continue
-                is_list = ('cmp', 'in', ('str', 'input_list'), pR) in p.conds
-                is_single = ('cmp', 'notin', ('str', 'input_list'), pR) in p.conds
-                want = 'overall_message' if is_list else 'msg' if is_single else None
-                writes = {k[2][1]: v for k, v in p.store.items() if k[0] == 'index' and k[1] == pR and k[2][0] == 'str'}
-                label = 'note for %s results' % ('list' if is_list else 'single' if is_single else 'all')
-                sig = (want, tuple(sorted(writes)), tuple(ai.show(v) for v in writes.values()))
-                if sig in seen:
-                    continue
-                seen.add(sig)
-                if want is None:
-                    r.undecided(label, "the key is not selected by `'input_list' in result`", where)
-                    continue
-                if set(writes) != {want}:
-                    r.violation(label + ': key', 'the note goes to %s instead of result[%r] (edX shows %r for %s results)'
-                                % (sorted(writes) or 'nowhere', want, want, 'list' if is_list else 'single'), where,
-                                expected=want, found=', '.join(sorted(writes)))
-                    continue
-                V = writes[want]
-                cur = ('index', pR, ('str', want))
-                if not (V[0] == 'add' and V[2][0] == 'meth' and V[2][2] == 'format' and V[2][1][0] == 'str'):
-                    r.undecided(label + ': text', 'appended value `%s` not recognised' % ai.show(V), where)
-                    continue
-                prev, fmt = V[1], V[2]
-                if prev not in (cur, ('add', cur, ('str', '\n\n'))):
-                    r.violation(label + ': text', 'the existing message is not kept in front of the note: `%s`' % ai.show(prev), where)
-                    continue
-                if fmt[1][1] != NOTE_FORMAT:
-                    r.violation(label + ': text', 'the note text is %r' % fmt[1][1], where, expected=NOTE_FORMAT, found=fmt[1][1])
-                    continue
-                args = fmt[3]
-                pct = len(args) == 2 and any(s[0] == 'mul' and {s[1], s[2]} & {('param', c) for c in credits}
-                                             and ai.num(100) in (s[1], s[2]) for s in ai.subterms(args[1]))
-                first_ok = len(args) == 2 and (args[0] == pN or args[0] == ai.num(1))
-                if first_ok and pct:
-                    r.ok(label + ': text', 'format(attempt, credit*100) appended to result[%r]' % want, where)
-                elif len(args) == 2 and args[1] == pN:
-                    r.violation(label + ': text', 'the attempt number and the percentage are swapped in the note', where)
-                elif first_ok:
-                    r.violation(label + ': text', 'the percentage `%s` is not credit * 100' % ai.show(args[1]), where,
-                                expected='credit * 100', found=ai.show(args[1]))
-                else:
-                    r.violation(label + ': text', 'the note is formatted with `%s`' % ', '.join(ai.show(a) for a in args), where,
-                                expected='(attempt_number, percentage)')
+            shown.add((kind, case[:2]))
+            m, f, lst = case
+            sit = 'message option %s, %s' % ('on' if m else 'off', 'a grade was reduced' if f else 'no grade was reduced')
+            if kind == 'spurious':
+                r.violation('apply_attempt_based_credit: note condition', 'the note is appended although %s: it must be added exactly when the '
+                            'option is on AND some grade was reduced' % sit, pr[2], expected="attempt_based_credit_msg and changed_result")
+            elif kind == 'missing':
+                r.violation('apply_attempt_based_credit: note condition', 'the note is not appended although %s' % sit, pr[2],
+                            expected="attempt_based_credit_msg and changed_result")
+            else:
+                r.violation('note for %s results: key' % ('list' if lst else 'single'), 'the note goes to %s instead of result[%r] (edX shows %r '
+                            'for %s results)' % (pr[3], pr[4], pr[4], 'list' if lst else 'single'), pr[2], expected=pr[4], found=', '.join(pr[3]))
+        if not problems:
+            for m in (False, True):
+                for f in (False, True):
+                    got = [x for (mm, ff, ll), xs in table.items() if mm == m and ff == f for x in xs]
+                    if not got:
+                        r.undecided('apply_attempt_based_credit: note condition', 'no path for option=%s, changed=%s' % (m, f), fi.loc)
+                    else:
+                        r.ok('apply_attempt_based_credit: note [option %s, %s]' % ('on' if m else 'off', 'changed' if f else 'unchanged'),
+                             'note %s on every such path' % ('appended' if (m and f) else 'absent'), fi.loc)
+
+
+def _note_text(r, V, cur, pN, credits, want, where, p):
+    label = 'note text -> result[%r]' % want
+    nv = _note_value(V)
+    if nv is None:
+        r.undecided(label, 'appended value `%s` not recognised' % ai.show(V)[:100], where)
+        return
+    prev, fmt = nv
+    if prev not in (cur, ('add', cur, ('str', '\n\n'))):
+        r.violation(label, 'the existing message is not kept in front of the note: `%s`' % ai.show(prev), where)
+        return
+    template, args = fmt[1][1], fmt[3]
+    # positional template: 'Maximum credit for attempt #{} is {}%.'
+    if template != NOTE_FORMAT:
+        r.violation(label, 'the note text is %r' % template, where, expected=NOTE_FORMAT, found=template)
+        return
+    pct = len(args) == 2 and any(s[0] == 'mul' and {s[1], s[2]} & {('param', c) for c in credits}
+                                 and ai.num(100) in (s[1], s[2]) for s in ai.subterms(args[1]))
+    first_ok = len(args) == 2 and (args[0] == pN or args[0] == ai.num(1))
+    if first_ok and pct:
+        r.ok(label, 'format(attempt, credit*100) appended', where)
+    elif len(args) == 2 and args[1] in (pN, ai.num(1)) and any(s[0] == 'param' and s[1] in credits for s in ai.subterms(args[0])):
+        r.violation(label, 'the attempt number and the percentage are swapped in the note', where)
+    elif first_ok and any(s[0] == 'mul' and {s[1], s[2]} & {('param', c) for c in credits} and (s[1][0] == 'num' or s[2][0] == 'num')
+                          for s in ai.subterms(args[1])):
+        r.violation(label, 'the percentage `%s` is not credit * 100' % ai.show(args[1]), where, expected='credit * 100', found=ai.show(args[1]))
+    else:
+        r.undecided(label, 'note arguments `%s` not recognised' % ', '.join(ai.show(a) for a in args), where)
 
 
 # ----------------------------------------------------------------------------- D3
